@@ -7,6 +7,7 @@ import Naga.Driver.Sem
 import Naga.Driver.C06
 import Naga.Driver.C13
 import Naga.Driver.C17
+import Naga.Driver.C14
 
 /-! Line-protocol driver: `nagadrv <cmd> [args]`, one input line ↦ one output line. -/
 
@@ -31,5 +32,6 @@ def main (args : List String) : IO UInt32 := do
   | ["c06"] => loop stdin stdout Naga.Driver.C06.handle; return 0
   | ["c13"] => loop stdin stdout Naga.Driver.C13.handle; return 0
   | ["c17"] => loop stdin stdout Naga.Driver.C17.handle; return 0
+  | ["c14"] => loop stdin stdout Naga.Driver.C14.handle; return 0
   | ["sem"] => loop stdin stdout Naga.Driver.Sem.handle; return 0
   | _ => IO.eprintln s!"nagadrv: unknown command {args}"; return 2
